@@ -77,7 +77,7 @@ Definition leads_to_dir (f : fs) (q : path) : bool :=
   | _ => false
   end.
 
-Inductive etype := TReg | TDir | TSym | TLink.
+Inductive etype := TReg | TDir | TSym | TLink | TIgn.   (* TIgn: a tar entry of a type the extractor does nothing for (FIFO, device, ...): only the path checks run *)
 Record entry := { ename : path; etyp : etype; labs : bool; lname : path; payload : nat; emode : nat }.
 Section X.
 Variables (root : path) (dmode : nat -> nat) (fmode : nat -> nat) (* recorded permission bits after mask and umask *) (pmode : nat) (* implicit parents *).
@@ -98,6 +98,7 @@ Definition finish (f : fs) (d : path) (c : nat) (e : entry) (src : option node) 
             end
   | TSym => match look f q with None => (put f q (NSym (labs e) (lname e)), true) | Some _ => (f, false) end
   | TLink => match src, look f q with Some n, None => (put f q n, true) | _, _ => (f, false) end
+  | TIgn => (f, true)
   end.
 
 (* the source of a hard link: a clean path below the destination whose real directory lies in the destination; link(2) does not follow a final link *)
@@ -119,6 +120,7 @@ Definition extract1 (f : fs) (e : entry) : fs * bool :=
     match etyp e, rest with
     | TDir, _ :: _ =>                                                                  (* MkdirAll(p, recorded mode): every missing directory gets the entry's mode *)
       let '(f1, ok) := mkdirs f cur (rest ++ [lastc p]) (dmode (emode e)) in (f1, ok)
+    | TIgn, _ => (f, true)                                                             (* checked, then skipped: nothing is created, not even the parents *)
     | _, _ =>
       let '(f1, ok) := mkdirs f cur rest pmode in
       if negb ok then (f1, false) else
